@@ -61,7 +61,11 @@ func (g *Generator) FuncToString(f *model.Function) string {
 		}
 		sb.WriteString(args.Name)
 		sb.WriteString(" ")
-		sb.WriteString(args.FullType())
+		if args.Variadic && strings.HasPrefix(args.FullType(), "[]") {
+			sb.WriteString("..." + strings.TrimPrefix(args.FullType(), "[]"))
+		} else {
+			sb.WriteString(args.FullType())
+		}
 	}
 
 	// "func Name(dst *DstModel, src *SrcModel)"
